@@ -162,8 +162,51 @@ type asmRun struct {
 	rd       *simrt.Reader
 }
 
-const asmMaxTicks = 1_500_000
-const asmMaxSteps = 400_000
+const asmMaxTicks = 6_000_000
+const asmMaxSteps = 120_000
+
+// asmMaxSends is the fixed bound on tokens sent through the assembler's
+// channels (all passes together) below which a run must finish within the
+// tick and step budgets.
+const asmMaxSends = 20_000
+
+// hotFunc names the function that was spinning: among the busiest tick sites
+// (at least half the maximum) the alphabetically first "file:func".
+func hotFunc(top []string, at string) string {
+	best := ""
+	var maxc int64
+	type sc struct {
+		fn string
+		c  int64
+	}
+	var all []sc
+	for _, t := range top {
+		var c int64
+		name := t
+		if i := strings.LastIndex(t, " x"); i >= 0 {
+			fmt.Sscanf(t[i+2:], "%d", &c)
+			name = t[:i]
+		}
+		parts := strings.SplitN(name, ":", 3)
+		fn := name
+		if len(parts) >= 2 {
+			fn = parts[0] + ":" + parts[1]
+		}
+		all = append(all, sc{fn, c})
+		if c > maxc {
+			maxc = c
+		}
+	}
+	for _, a := range all {
+		if a.c*2 >= maxc && (best == "" || a.fn < best) {
+			best = a.fn
+		}
+	}
+	if best == "" {
+		best = siteKey(at)
+	}
+	return best
+}
 
 func runAsm(t *testing.T, data []byte, plan simrt.ReaderPlan, tp *simrt.Tape, cfg gi.SimulatorConfig) *asmRun {
 	r := &asmRun{}
@@ -234,14 +277,16 @@ func checkAsmRun(res *Result, r *asmRun, tc *textCase, cfg gp.SimulatorConfig, w
 	if len(r.out.Panics) > 0 {
 		return false
 	}
-	sendBound := int64(64*tc.ExpTokens + 4096)
 	if r.out.Budget {
 		res.stat("max.sends-at-budget", r.out.Sends)
-		if r.out.Sends > sendBound || tc.Amp > 10000 {
+		// Outside the property's domain: FOR counts multiplying beyond the
+		// fixed bound (measured as channel traffic) or EQU amplification.
+		inDomain := r.out.Sends <= asmMaxSends || (tc.Pristine && r.out.Sends <= int64(64*tc.ExpTokens+4096))
+		if !inDomain || tc.Amp > 10000 {
 			res.Discard = "expansion beyond the stated FOR/EQU bound"
 			return false
 		}
-		res.add("C05", "C05 no-progress at "+siteKey(r.out.BudgetAt), map[string]any{"run": which, "ticks": r.out.Ticks, "sends": r.out.Sends, "steps": r.out.Steps, "top_sites": r.out.TopSites})
+		res.add("C05", "C05 no-progress in "+hotFunc(r.out.TopSites, r.out.BudgetAt), map[string]any{"run": which, "ticks": r.out.Ticks, "sends": r.out.Sends, "steps": r.out.Steps, "top_sites": r.out.TopSites})
 		return false
 	}
 	if !r.out.MainDone {
@@ -322,6 +367,7 @@ func genAsmText(tp *simrt.Tape, cfg gp.SimulatorConfig, mix asmMix) textCase {
 			tc.Notes = append(tc.Notes, "mut:"+kind)
 		}
 		tc.Kind = "mutated"
+		tc.Pristine = false
 		tc.ExpTokens = tc.ExpTokens*8 + 4000
 		tc.EquLines += 2
 	case k < mix.program+mix.mutated+mix.soup:
@@ -404,6 +450,9 @@ func caseAsm(t *testing.T, tp *simrt.Tape, c *Ctx) (res Result) {
 	cfg := cfgI(cfgP)
 	tc := genAsmText(tp, cfgP, mix)
 	delivered, plan, faults := genStream(tp, &res, tc.Text, mix.faultPct)
+	if len(faults) > 0 {
+		tc.Pristine = false
+	}
 	res.Decoded = map[string]any{"kind": tc.Kind, "text": string(delivered), "config": cfgMap(cfgP), "faults": faults, "notes": tc.Notes,
 		"reader": map[string]any{"max_chunk": plan.MaxChunk, "zero_reads_of_16": plan.ZeroReads, "eof_with_data": plan.EOFWithData, "err_at": plan.ErrAt}}
 	res.Hash = hashStr(string(delivered) + fmt.Sprint(cfgP, plan.ErrAt))
